@@ -284,6 +284,29 @@ pub fn run_case(c: &Case, drv: &mut Drv, rep: &mut Report) {
             return;
         }
     }
+    // the same file read by a session configured with another bits-per-key setting (the options may
+    // change between the session that wrote the table and the one reading it)
+    {
+        let other = ((c.bloom * 7 + 3) % 64) + 1;
+        let opts2 = DbOptions { filter_policy: Arc::new(raindb::BloomFilterPolicy::new(other)), ..opts.clone() };
+        match raindb::verif::table_open(&opts2, 7) {
+            Err(e) => {
+                rep.fail("oracle", "c13:open-failed", &format!("the table cannot be opened with bloom bits-per-key {other}: {e}"), &line);
+                return;
+            }
+            Ok(t2) => {
+                rep.count("c13.reader-with-other-bloom-setting");
+                for (k, s) in &probes {
+                    let got = t2.get(k, *s);
+                    let want = spec_lookup(es, k, *s);
+                    if got != want {
+                        rep.fail("oracle", "c13:lookup-differs-with-other-reader-bloom-setting", &format!("table built with {} bloom bits per key, read with {other}: get({}, {}) = {}, the entries say {}", c.bloom, hex(k), s, show_answer(&got), show_answer(&want)), &line);
+                        return;
+                    }
+                }
+            }
+        }
+    }
     // model on the observed layout (sampled: the request carries the whole table)
     for (k, s) in probes.iter().step_by(probes.len() / 12 + 1) {
         let ans = drv.ask(&format!("table.get {} {} {} {}", counts, es_tok, hex(k), s));
